@@ -300,8 +300,8 @@ def base_plan(rng, nodes=None, version=None, legacy_p=0.0):
 
 
 def make_legacy(p, rng):
-    """Protocol 2 against a Cassandra 2.1 personality: the session uses HostConnectionPool (several connections per host)."""
-    p['version'] = 2
+    """Protocol 2 (or 1) against a Cassandra 2.1 personality: the session uses HostConnectionPool (several connections per host)."""
+    p['version'] = rng.choice([2, 2, 1])
     for nd in p['cluster']['nodes']:
         nd['release'] = '2.1.15'
         nd['versions'] = [1, 2, 3]
